@@ -634,3 +634,13 @@ def run(ck, prog):
 
 
 EXPLANATION += " Default metric: Euclidian distance / squared_distance depend on their arguments only through x - y (C17's difference-form rule)."
+
+
+# ------------------------------------------------------------------ generic: the value tested against a bound is the value set to the bound (clamps)
+_run_pre_clamp = run
+
+
+def run(ck, prog):
+    _run_pre_clamp(ck, prog)
+    from sa import clamp
+    clamp.run_rule(ck, prog, set(DIMENSION_FILES))
